@@ -345,10 +345,24 @@ fn effect_visible(s: &Sys, ep: Ep) -> Result<(), String> {
         Ep::TokOwnerMint | Ep::TokOwnerMintFrom => s.token.balance(who) == 1,
         _ => true,
     };
-    if good {
+    if !good {
+        return Err(format!("{:?} reported success but its effect is not visible", ep));
+    }
+    // the granted / revoked power itself, not only the query that reports it
+    env.mock_all_auths_allowing_non_root_auth();
+    let exec = |a: &Address| matches!(s.ops.try_execute(a, &s.token.address, &soroban_sdk::Symbol::new(env, "decimals"), &soroban_sdk::Vec::new(env)), Ok(Ok(_)));
+    let mint_as = |a: &Address| matches!(s.token.try_mint_from(a, &s.pool[STRANGER], &1), Ok(Ok(())));
+    let behaves = match ep {
+        Ep::OpsAddOperator => exec(who),
+        Ep::OpsRemoveOperator => !exec(who),
+        Ep::TokAddMinter => mint_as(who),
+        Ep::TokRemoveMinter => !mint_as(who),
+        _ => true,
+    };
+    if behaves {
         Ok(())
     } else {
-        Err(format!("{:?} reported success but its effect is not visible", ep))
+        Err(format!("{:?} reported success and the query agrees, but the power it grants / revokes behaves otherwise", ep))
     }
 }
 
